@@ -38,7 +38,7 @@ pub const CORPUS: &[&str] = &[
     "2K4k/8/8/8/B1B5/1B1B4/B1B5/1B1B4 w - - 0 1",
 ];
 
-pub const SOURCES: [&str; 16] = [
+pub const SOURCES: [&str; 17] = [
     "sparse",
     "dense",
     "playout",
@@ -55,6 +55,7 @@ pub const SOURCES: [&str; 16] = [
     "max_mobility",
     "shuffled_camps",
     "few_moves",
+    "no_moves_search",
 ];
 
 /// Positions with (near-)maximal numbers of semilegal moves found by earlier maximisation runs.
@@ -274,10 +275,30 @@ fn src_ep_family(cur: &mut Cursor, p: &mut RefPos, variant2: bool) {
     if !placed && p.king_sq(us).is_none() {
         put_random(cur, p, (us, Pc::K));
     }
-    // enemy king
+    // enemy king: sometimes at home with rooks and castling rights (rights and en-passant shapes combined)
     let wk = p.king_sq(us).unwrap();
-    if let Some(bk) = free_sq(cur, p, |s| !adjacent(s, wk)) {
+    let home = mk_sq(4, 7).unwrap();
+    if cur.chance(80) && p.b[home as usize].is_none() && !adjacent(home, wk) {
+        p.b[home as usize] = Some((them, Pc::K));
+        for (f, i) in [(7i8, BK), (0i8, BQ)] {
+            let r = mk_sq(f, 7).unwrap();
+            if p.b[r as usize].is_none() && cur.bool() {
+                p.b[r as usize] = Some((them, Pc::R));
+                p.castle[i] = true;
+            }
+        }
+    } else if let Some(bk) = free_sq(cur, p, |s| !adjacent(s, wk)) {
         p.b[bk as usize] = Some((them, Pc::K));
+    }
+    // own rooks at home with rights when our king happens to stand on e1
+    if wk == mk_sq(4, 0).unwrap() {
+        for (f, i) in [(7i8, WK), (0i8, WQ)] {
+            let r = mk_sq(f, 0).unwrap();
+            if p.b[r as usize].is_none() && cur.bool() {
+                p.b[r as usize] = Some((us, Pc::R));
+                p.castle[i] = true;
+            }
+        }
     }
     // extras
     let n = cur.below(5);
@@ -865,6 +886,110 @@ fn src_few_moves(cur: &mut Cursor, p: &mut RefPos) {
     p.side = us;
 }
 
+/// Directed search for positions without legal moves that carry a lot of own material: starting from a random
+/// position, legal moves are eliminated one at a time (an own man put on the target square, a capturable man turned
+/// into an own one, a far-away enemy line piece guarding a king flight square) as long as the count goes down.
+/// Yields stalemates and mates with boxed-in knights, rooks, bishops and blocked pawns - shapes that uniform
+/// sampling never produces - or, when the search stops early, positions with very few moves.
+fn src_no_moves_search(cur: &mut Cursor, p: &mut RefPos) {
+    let us = Col::W;
+    let them = Col::B;
+    // start: king near an edge, 3-7 own men nearby, enemy king and a couple of enemy pieces
+    let edge: Vec<Sq> = (0..64u8).filter(|&s| file_of(s) == 0 || file_of(s) == 7 || rank_of(s) == 0 || rank_of(s) == 7).collect();
+    let k = edge[cur.below(edge.len())];
+    p.b[k as usize] = Some((us, Pc::K));
+    if let Some(bk) = free_sq(cur, p, |s| !adjacent(s, k)) {
+        p.b[bk as usize] = Some((them, Pc::K));
+    }
+    let n = 2 + cur.below(5);
+    for _ in 0..n {
+        let pc = cur.pick(&[Pc::N, Pc::P, Pc::P, Pc::R, Pc::B, Pc::N, Pc::Q]);
+        let near = |s: Sq| (file_of(s) - file_of(k)).abs() <= 3 && (rank_of(s) - rank_of(k)).abs() <= 3;
+        let s = if pc == Pc::P { free_sq(cur, p, |s| pawn_ok(s) && near(s)) } else { free_sq(cur, p, near) };
+        if let Some(s) = s {
+            p.b[s as usize] = Some((us, pc));
+        }
+    }
+    let m = 1 + cur.below(3);
+    for _ in 0..m {
+        let pc = cur.pick(&[Pc::Q, Pc::R, Pc::B, Pc::N, Pc::P]);
+        let s = if pc == Pc::P { free_sq(cur, p, pawn_ok) } else { free_sq(cur, p, |_| true) };
+        if let Some(s) = s {
+            p.b[s as usize] = Some((them, pc));
+        }
+    }
+    p.side = us;
+    let valid = |q: &RefPos| q.count(Col::W) <= 16 && q.count(Col::B) <= 16 && !q.in_check(them) && q.king_sq(us).is_some() && q.king_sq(them).is_some();
+    // make the start valid for the search (the common repair runs again afterwards)
+    loop {
+        let bk = p.king_sq(them).unwrap();
+        match p.attackers(bk, us).first() {
+            Some(&a) => p.b[a as usize] = None,
+            None => break,
+        }
+    }
+    let steps = 10 + cur.below(50);
+    for _ in 0..steps {
+        let l = p.legal();
+        if l.is_empty() {
+            break;
+        }
+        let mv = l[cur.below(l.len())];
+        let mut q = p.clone();
+        let sel = cur.below(4);
+        if mv.man.1 == Pc::K || sel == 3 {
+            // guard the destination with a distant enemy line piece, or occupy it with an own man
+            if sel >= 2 {
+                let pc = cur.pick(&[Pc::R, Pc::B, Pc::Q]);
+                let cands: Vec<Sq> = (0..64u8)
+                    .filter(|&s| {
+                        if q.b[s as usize].is_some() || adjacent(s, mv.to) {
+                            return false;
+                        }
+                        let mut t = q.clone();
+                        t.b[s as usize] = Some((them, pc));
+                        t.reaches(s, mv.to)
+                    })
+                    .collect();
+                if !cands.is_empty() {
+                    q.b[cands[cur.below(cands.len())] as usize] = Some((them, pc));
+                }
+            } else if q.b[mv.to as usize].is_none() {
+                let mut pc = cur.pick(&[Pc::P, Pc::N, Pc::B, Pc::R]);
+                if pc == Pc::P && !pawn_ok(mv.to) {
+                    pc = Pc::N;
+                }
+                q.b[mv.to as usize] = Some((us, pc));
+            }
+        } else if q.b[mv.to as usize].is_none() {
+            // block the target square with an own man (for pawn pushes: an enemy pawn works too)
+            let mut pc = cur.pick(&[Pc::P, Pc::P, Pc::N, Pc::B, Pc::R]);
+            if pc == Pc::P && !pawn_ok(mv.to) {
+                pc = Pc::N;
+            }
+            let c = if mv.man.1 == Pc::P && cur.bool() { them } else { us };
+            q.b[mv.to as usize] = Some((c, pc));
+        } else {
+            // a capture: the victim becomes an own man, or disappears
+            if cur.bool() {
+                let (_, vpc) = q.b[mv.to as usize].unwrap();
+                if vpc != Pc::K {
+                    let mut pc = vpc;
+                    if pc == Pc::P && !pawn_ok(mv.to) {
+                        pc = Pc::N;
+                    }
+                    q.b[mv.to as usize] = Some((us, pc));
+                }
+            } else if !matches!(q.b[mv.to as usize], Some((_, Pc::K))) {
+                q.b[mv.to as usize] = None;
+            }
+        }
+        if q != *p && valid(&q) && q.legal().len() < l.len() {
+            *p = q;
+        }
+    }
+}
+
 /// Colour flip: mirror ranks, swap colours, side, rights, mark.
 pub fn flip_colors(p: &RefPos) -> RefPos {
     let mut n = RefPos::empty();
@@ -1055,6 +1180,10 @@ pub fn gen_position_from(cur: &mut Cursor, sel: usize) -> (RefPos, &'static str)
         15 => {
             src_few_moves(cur, &mut p);
             keep_ep = true;
+            own_side = true;
+        }
+        16 => {
+            src_no_moves_search(cur, &mut p);
             own_side = true;
         }
         _ => {
